@@ -7,4 +7,5 @@ pub mod gen;
 pub mod emit;
 pub mod strat;
 pub mod rschema;
+pub mod hist;
 pub use serde_json;
